@@ -81,6 +81,19 @@ def run(ctx):
         ext = rng.random() < 0.6
         jit.append({"kind": "jitter", "cfg": rng.choice(configs), "script": rng.choice(plain) if ext else rng.choice(stop),
                     "seed": rng.randrange(1 << 30), "cancelStep": (rng.randrange(0, 60) if ext else -1), "variant": rng.randrange(1000), "slow": P.slow_choice(rng)})
+    # systematic family: a stop before / right after the pipeline starts, on files much longer than the pipeline buffers, so that
+    # goroutines started for a closed scanner, or a stop that did not reach them, cannot drain the input and exit unnoticed
+    longs = sorted(ctx.jitter_configs, key=lambda c: (len(c["blocks"]), c["n"]))
+    for k, cfgl in enumerate([c for c in longs if c["n"] in (2, 11)] if q else longs):
+        for pre in ([], ["scan"], ["scan", "scan"]):
+            for stopop in ("close", "cancel"):
+                for h in ([], ["header"]):
+                    for tail in (["scan", "err"], ["err", "scan", "close"]) if not q else (["scan", "err"],):
+                        jit.append({"kind": "jitter", "cfg": cfgl, "script": h + pre + [stopop] + tail, "seed": rng.randrange(1 << 30),
+                                    "cancelStep": -1, "variant": rng.randrange(1000), "slow": P.slow_choice(rng)})
+    for i, c in enumerate(jit[:nj]):
+        if i % 2 and c["cancelStep"] < 0:
+            c["cfg"] = rng.choice(ctx.jitter_configs)   # stop scripts on long files as well
     jrecs = P.run_pipe(ctx, jit, race=True, shards=8)
     for c in jit:
         ctx.note_case([c["cfg"], c["script"], c["seed"]], nontrivial=True)
